@@ -19,4 +19,6 @@ def tokens (line : String) : List String :=
 
 def hx (s : String) : String := DS.Hex.encode s
 
+def sortStrings (l : List String) : List String := l.mergeSort (fun a b => a ≤ b)
+
 end DS.Driver
